@@ -64,6 +64,8 @@ def validate_exec_traces(ctx, execs, invs, name=None):
            f"  FixOrphanParent = {'TRUE' if VARIANT.get('FixOrphanParent') else 'FALSE'}",
            f"  FixBteBranch = {'TRUE' if VARIANT.get('FixBteBranch') else 'FALSE'}",
            f"  FixEmpty = {'TRUE' if VARIANT.get('FixEmpty') else 'FALSE'}", "  ResetFirst = TRUE",
+           f"  AtomicCallback = {'TRUE' if VARIANT.get('AtomicCallback') else 'FALSE'}",
+           f"  FixAncestorWalk = {'TRUE' if VARIANT.get('FixAncestorWalk') else 'FALSE'}",
            "CONSTRAINT Progress", "CONSTRAINT Prune"] + [f"INVARIANT {i}" for i in invs] + ["POSTCONDITION Accepted", "CHECK_DEADLOCK FALSE"]
     bound = {"C09": {"OnDone", "Build", "ExReturn", "BodyStart"}, "C10": {"Ckpt", "BodyEnd", "ParentCkpt"},
              "C07": {"EvSet", "ExReturn", "Resubmit", "Refresh", "BodyStart"}, "C06": {"EvSet", "ExReturn", "BodyEnd", "Refresh"}, "C08": set()}
